@@ -243,13 +243,14 @@ def run(prop, tier):
     ]
     vlib.cargo_build(["gs"])
     # 1. the models satisfy the property layer
-    r = vlib.model_check(SPECD, "GlobalSink", "MC_gs_quick.cfg" if tier == "quick" else "MC_gs.cfg", timeout=3600)
-    chk.add_model("GlobalSink", r)
-    r = vlib.model_check(SPECD, "GlobalSinkRace", "MC_race_quick.cfg" if tier == "quick" else "MC_race.cfg", timeout=3600)
-    chk.add_model("GlobalSinkRace", r)
-    if tier != "quick":
-        r = vlib.model_check(SPECD, "GlobalSinkRace", "MC_race_live.cfg", timeout=3600)
-        chk.add_model("GlobalSinkRace/live", r)
+    if not getattr(vlib, "SKIP_MC", False):   # VERIF_SKIP_MC: self-test only (the models do not depend on the code)
+        r = vlib.model_check(SPECD, "GlobalSink", "MC_gs_quick.cfg" if tier == "quick" else "MC_gs.cfg", timeout=3600)
+        chk.add_model("GlobalSink", r)
+        r = vlib.model_check(SPECD, "GlobalSinkRace", "MC_race_quick.cfg" if tier == "quick" else "MC_race.cfg", timeout=3600)
+        chk.add_model("GlobalSinkRace", r)
+        if tier != "quick":
+            r = vlib.model_check(SPECD, "GlobalSinkRace", "MC_race_live.cfg", timeout=3600)
+            chk.add_model("GlobalSinkRace/live", r)
     # 2. R
     run_R(chk, prop, tier)
     # 3. T
